@@ -71,6 +71,10 @@ theorem step_simple_S2 (s s' : LSt) (r : String) (j i : Nat) (b : Bool) :
     (Spec.stepSimple s (.emptySq i) = some (s', r) → Step s s') := by
   refine ⟨?_, ?_, ?_, ?_, ?_, ?_, ?_⟩ <;> simple_tac
 
+theorem step_simple_S3 (s s' : LSt) (r : String) (i : Nat) :
+    (Spec.stepSimple s (.boolSq i) = some (s', r) → Step s s') := by
+  simple_tac
+
 theorem step_simple_G1 (s s' : LSt) (r : String) (j i : Nat) (fl : Option Flavour) :
     (Spec.stepSimple s (.newG i fl) = some (s', r) → Step s s') ∧
     (Spec.stepSimple s (.cpG j i) = some (s', r) → Step s s') ∧
@@ -192,6 +196,7 @@ theorem step_stepSimple (s s' : LSt) (op : Op) (r : String) (h : Spec.stepSimple
   | blockS i b => exact (step_simple_S2 s s' r 0 i b).2.2.2.2.1 h
   | blockedSq i => exact (step_simple_S2 s s' r 0 i false).2.2.2.2.2.1 h
   | emptySq i => exact (step_simple_S2 s s' r 0 i false).2.2.2.2.2.2 h
+  | boolSq i => exact step_simple_S3 s s' r i h
   | callS i arg => simp [Spec.stepSimple] at h
   | newG i fl => exact (step_simple_G1 s s' r 0 i fl).1 h
   | cpG j i => exact (step_simple_G1 s s' r j i none).2.1 h
